@@ -31,7 +31,9 @@
 (*                                                                         *)
 (* Rules = the clauses of C13:                                              *)
 (*   "releases each allocation exactly once":  FreeNotLive, ReallocNotLive, *)
-(*        LeakAfterAllDestroyed, DanglingPointer                            *)
+(*        LeakAfterAllDestroyed (every object's last call was destroy, or   *)
+(*        no object holds an owned pointer, and allocations are still out), *)
+(*        DanglingPointer                                                   *)
 (*   "shares no memory":  SharedBuffer, CopySharesMemory, BystanderChanged  *)
 (*   "leaves the source untouched":  CopySourceChanged                      *)
 (*   "destination equal to the source in every field":  CopyNotEqual        *)
@@ -57,6 +59,7 @@ ObsInit(nobj, sz) ==
   [ nobj |-> nobj, sz |-> sz,
     live |-> << >>,            \* address id -> size, for every allocation handed out and not yet released
     objs |-> << >>,            \* projection after the last call that returned (<<>> = all objects zero)
+    dirty |-> {},              \* objects that were the target of a call since they were last destroyed
     call |-> NoCall ]          \* the call in progress
 
 Init == /\ l = 1 /\ o = ObsInit(0, 1) /\ bad = <<>> /\ nbad = 0 /\ done = FALSE
@@ -126,6 +129,7 @@ ZeroStr == <<0, 0, 0, 0, 1>>
 ZeroObjP == [s |-> <<ZeroStr, ZeroStr, ZeroStr, ZeroStr>>, f |-> 0, px |-> 0, py |-> 0, ms |-> 0, dp |-> 0, dn |-> 0, d |-> <<>>]
 Pre(i) == IF i >= 1 /\ i <= Len(o.objs) THEN o.objs[i] ELSE ZeroObjP
 
+DirtyAfter == IF o.call.f = "destroy" THEN o.dirty \ {o.call.o} ELSE o.dirty \cup {o.call.o}
 RetRules(os, r) ==
   LET c == o.call
       isCopy == c.f = "copy" /\ c.o \in 1..o.nobj /\ c.s \in 1..o.nobj /\ c.o # c.s
@@ -138,7 +142,9 @@ RetRules(os, r) ==
               \o If(r = 1 /\ ~ObjEq(os[c.o], os[c.s]), "CopyNotEqual")
               \o If(SharesWith(os[c.o], os[c.s]), "CopySharesMemory")
          ELSE <<>>)
-     \o If((\A i \in 1..Len(os) : Destroyed(os[i])) /\ DOMAIN o.live # {}, "LeakAfterAllDestroyed")
+     \* every object has been destroyed (by the call history, or visibly: no object holds an owned pointer any more),
+     \* yet allocations are still outstanding
+     \o If((DirtyAfter = {} \/ \A i \in 1..Len(os) : Destroyed(os[i])) /\ DOMAIN o.live # {}, "LeakAfterAllDestroyed")
 
 \* ---- one step per trace line ----------------------------------------------------------------------------------------------
 InCall == o.call.f # "none"
@@ -181,7 +187,8 @@ Step ==
                      leaked == \E i \in 1..Len(rules) : rules[i] = "LeakAfterAllDestroyed"
                  IN /\ Flag(rules)
                     \* a leak is reported once: the leaked allocations are forgotten afterwards
-                    /\ o' = [o EXCEPT !.call = NoCall, !.objs = Ev.objs, !.live = IF leaked THEN << >> ELSE o.live]
+                    /\ o' = [o EXCEPT !.call = NoCall, !.objs = Ev.objs, !.dirty = DirtyAfter,
+                                      !.live = IF leaked THEN << >> ELSE o.live]
        [] e = "San" -> o' = o /\ Flag(<<"SanitizerReport">>)
        [] e = "Crash" -> o' = [o EXCEPT !.call = NoCall] /\ Flag(<<"Crash">>)
        [] e = "End" -> o' = o /\ Flag(If(InCall, "HarnessEndInsideCall"))
